@@ -179,3 +179,23 @@ Proof.
   intros Hc Hv H Hq o Ht. apply (runG_viewlast _ _ Hv) in H.
   destruct (quiescent_all_effects_proved true c l s Hc H Hq o Ht) as [A B]. split; [exact A | exact (B eq_refl)].
 Qed.
+
+(* every action of a run was enabled where it was taken *)
+Lemma runG_in_enabled g c : forall l s s', runG g c s l = Some s' ->
+  forall a, In a l -> exists s0 s1, step c s0 a = Some s1.
+Proof.
+  induction l as [|x l IH]; intros s s' H a Ha; [contradiction|]. cbn in H.
+  destruct (input_okb s x && (negb g || mail_first_okb s x)); [|discriminate].
+  destruct (step c s x) as [s1|] eqn:Es; [|discriminate].
+  destruct Ha as [->|Ha]; [exists s, s1; exact Es | exact (IH _ _ H _ Ha)].
+Qed.
+
+(* when events are held until the flush that stores their intents, no look at the store finds a row
+   with another event's content (the model admits such a look only in the early-release variant) *)
+Theorem stored_content_is_own_proved g c l s : c_earlyrel c = false -> runG g c init l = Some s ->
+  forall p effs ms bad, In (Check p effs ms bad) l -> bad = [].
+Proof.
+  intros He H p effs ms bad Hin. destruct (runG_in_enabled _ _ _ _ _ H _ Hin) as (s0 & s1 & Es).
+  cbn in Es. rewrite He in Es. cbn in Es.
+  destruct bad; [reflexivity|]. cbn in Es. rewrite !andb_false_r in Es. discriminate.
+Qed.
